@@ -64,7 +64,7 @@ fn check(buf: &[u8]) {
     }
 }
 
-//@ tier: thorough
+//@ tier: attempt
 //@ timeout: 2400
 //@ funcs: write::yaml::must_quote, write::yaml::ns_plain_one_line, read::yaml::parse_int, parse_float, parse_sign, parse_radix, normalise_float, strip
 //@ bounds: every ASCII string of length 1 (symbolic bytes < 0x80; the length is concrete so that loops over the string fold)
@@ -86,7 +86,7 @@ fn c14_yaml_plain_scalar_reads_back_as_string_1() {
     kani::cover!(crate::write::yaml::verif_c14_w::must_quote(&b));
 }
 
-//@ tier: thorough
+//@ tier: attempt
 //@ timeout: 2400
 //@ funcs: write::yaml::must_quote, write::yaml::ns_plain_one_line, read::yaml::parse_int, parse_float, parse_sign, parse_radix, normalise_float, strip
 //@ bounds: every ASCII string of length 2 (symbolic bytes < 0x80; the length is concrete so that loops over the string fold)
@@ -108,7 +108,7 @@ fn c14_yaml_plain_scalar_reads_back_as_string_2() {
     kani::cover!(crate::write::yaml::verif_c14_w::must_quote(&b));
 }
 
-//@ tier: thorough
+//@ tier: attempt
 //@ timeout: 2400
 //@ funcs: write::yaml::must_quote, write::yaml::ns_plain_one_line, read::yaml::parse_int, parse_float, parse_sign, parse_radix, normalise_float, strip
 //@ bounds: every ASCII string of length 3 (symbolic bytes < 0x80; the length is concrete so that loops over the string fold)
